@@ -23,6 +23,18 @@ CHECKS = {
               "model on real trees; full measurements compared with an independent O(n^2) oracle."),
         ref="5.C01", technique="Lean 4 theorems over translator-generated kernels + correspondence + independent brute-force oracle",
         note="scipy KDTree.count_neighbors exact on stored floats (validated); guard band 1e-9 on separations; astropy distances trusted"),
+    "C02": dict(
+        text=("Theorems (records are opaque values): the chunks of a pass concatenate to the input for every length and "
+              "chunk size >= 1 (reader state machine built from the generated stop test / counter / slice bounds); "
+              "np.array_split loses nothing for every worker count; a patch writer flushes everything it received for "
+              "every buffer size (incl. -1); MAIN pipeline_multiset + arrivals_perm: for every chunk size, worker count, "
+              "buffer size and every order in which the workers of each chunk deliver their parts, the data file of "
+              "patch p is a permutation of the input records of patch p; sequential mode gives the exact sub-sequence; "
+              "header byte round-trips all flag combinations. Tie: generated kernels + AST pins of groupby / PatchWriter "
+              "/ write_patches / split_into_patches; real creations from data frames, FITS, HDF5, Parquet with 1..4 real "
+              "worker processes compared record-pattern by record-pattern incl. the reopened cache."),
+        ref="5.C02", technique="Lean 4 theorems over generated reader kernels + hand-written pipeline model + correspondence",
+        note="numpy argsort/unique/split, Pool.map, the file-format libraries and vq.vq are modelled/trusted; OS scheduling is replaced by the universally quantified delivery order"),
     "C03": dict(
         text=("Theorems (Lean 4, all N, B, k): the generated sample_patch_sum kernel equals the leave-one-out sum, "
               "which equals the total recomputed on the arrays with row/column k removed; same for the weight-product "
@@ -71,6 +83,15 @@ CHECKS = {
               "poles / across RA=0, row shuffle, centre permutation, weight factors 2^k bitwise and 1e-9..1e6, split)."),
         ref="5.C13", technique="Lean 4 theorems on the spec + metamorphic differential runs of the real pipeline",
         note="relies on C01/C03/C04 for spec = implementation; rotations applied in float64 with a 1e-8 guard band"),
+    "C16": dict(
+        text=("Theorems: the chunk sizes of a random-reader pass (generated size expression) sum to exactly n, each in "
+              "1..c, all but the last full, for all n >= 0 and c >= 1; a pass depends only on seed and requested sizes "
+              "(re-seed state machine, history free); the window follows from monotonicity of the inverse map; weights and "
+              "redshifts selected by one index array come from the same source row. PARTIAL: uniformity in area rests on "
+              "numpy's Generator (trusted) - a fixed-seed chi-square on equal-area cells is run as validation only. "
+              "Correspondence on BoxRandoms / RandomReader / Catalog.from_random over windows incl. the poles."),
+        ref="5.C16", technique="Lean 4 theorems over the generated chunk-size kernel + re-seed state machine + correspondence",
+        note="numpy Generator uniform/integers trusted; arcsin/sin monotone to 1 ulp"),
     "C17": dict(
         text=("Theorems about a Lean container model (counts B×N×N, weight sums, binning): addition adds counts and is "
               "rejected exactly when binning (edges or closed side) or patch number differ; scalar multiplication "
@@ -81,6 +102,15 @@ CHECKS = {
               "PatchedSumWeights/CorrData by differential testing over stratified operation mixes (arrays EXACT)."),
         ref="5.C17", technique="Lean 4 theorems over a hand-written container model + differential correspondence",
         note="numpy indexing/broadcasting as documented; the container classes' methods are modelled by hand (tie = correspondence)"),
+    "C18": dict(
+        text=("Theorems about the reader state machine assembled from the generated kernels (stop test, counter update, "
+              "slice bounds): one pass requests every record exactly once and in order (chunks concatenate to the "
+              "input), every chunk has at most c records, requests are consecutive and start at row 0 - for all lengths "
+              "and chunk sizes >= 1; the probe / number-of-passes glue is pinned. Tie: an instrumented data-frame-like "
+              "source logs every slice and whole-column access of Catalog.from_dataframe in all patch modes; "
+              "FITS/HDF5/Parquet readers are compared by chunk lengths over two passes."),
+        ref="5.C18", technique="Lean 4 theorems over generated reader kernels + instrumented-source correspondence",
+        note="memory-mapped access below the file readers is not observed; pandas slicing trusted"),
 }
 
 PENDING = {}
